@@ -138,6 +138,10 @@ func vWireLast() []byte { return nil }
 // vModifiesWire declares that the target may send frames.
 func vModifiesWire() {}
 
+// vWireEach: every frame handed to the connection from here to the end of the harness
+// satisfies pred, evaluated in the state at the moment of the send.
+func vWireEach(pred func(w []byte) bool) {}
+
 // vFuel sets how many times recursive spec functions are unfolded in this harness (default 1).
 func vFuel(n int) {}
 
